@@ -2,6 +2,7 @@
 from __future__ import annotations
 
 import copy
+import functools
 import itertools
 import re
 
@@ -47,13 +48,23 @@ RULES = {
     "subdomain (greedy and lazy), label class, optional port, literal in any letter case, top-level alternation of literals incl. literals that are prefixes of "
     "one another) so that membership is decided by construction, x Host values (members, members with prefix/suffix "
     "junk, 8-bit bytes, ports, upper-case, empty, absent) x other host-like headers x scope type x optionally 1..2 further requests to the same Hosts object (the member, other spellings of it); non-trivial = a near-miss host (junk around a member)",
+    "hosts_rx": "Hypothesis: host tables of 1..4 entries from a catalogue of ~40 patterns whose meaning depends on being compiled on their own "
+    "(numbered back-references, named groups with names repeated across entries, conditional groups, leading flags (?i) (?x) (?s) (?a) and scoped flags, "
+    "nested groups, look-ahead / look-behind, possessive / atomic / lazy quantifiers, plain patterns and a catch-all) over 3 domains, mixed with entries of "
+    "the constructive family, x Host values derived from the patterns (members and near-misses of an entry, of a pattern not in the table, unrelated, absent) "
+    "x optionally 2..3 requests to one Hosts object x scope type; every pattern is valid on its own, so building the table must succeed; expected = the first "
+    "entry whose own pattern re.fullmatch-es the Host value, else 404; non-trivial = at least two entries have groups and the Host value goes to an entry other than the first",
+    "hosts_rx_grid": "enumerated: every single catalogue pattern x all its members / near-misses / unrelated values; every ordered pair of catalogue patterns over one "
+    "domain (thorough: 3 x 3 domains) x members and near-misses of both; a plain entry followed by two catalogue patterns, with and without a final catch-all",
 }
 ASSUMPTIONS = [
     "the WSGI environ carries paths in the PEP 3333 bytes-as-Latin-1 form; they are compared after decoding as UTF-8, and what a mount "
     "hands down (SCRIPT_NAME, PATH_INFO) must again be in that form",
     "SCRIPT_NAME / PATH_INFO (WSGI) and root_path (ASGI) may be absent from a request when empty (PEP 3333, ASGI HTTP scope)",
     "a request path whose bytes are not UTF-8 is only sent to tables with ASCII prefixes (how such a path compares with a non-ASCII prefix is left open)",
-    "host patterns come from a constructive family whose language is computed without the re module",
+    "host patterns come from a constructive family whose language is computed without the re module; in hosts_rx / hosts_rx_grid the language of an entry "
+    "is what re.fullmatch says about that entry's pattern compiled on its own (the property's wording), i.e. the re module is trusted and the table logic is judged",
+    "a host table whose patterns are each valid on their own is a valid table: building the Hosts object must not raise",
     "dispatch is on the Host header only: no other header and not the server address takes part",
 ]
 
@@ -334,6 +345,9 @@ def _ascii_lower(s):
 
 def host_language(pat, host):
     kind, lit = pat
+    if kind == "rx":
+        # the property's wording: the entry's OWN pattern, compiled on its own, matches the entire Host value
+        return re.compile(lit).fullmatch(host) is not None
     if kind == "lit":
         return host == lit
     if kind == "www":
@@ -360,6 +374,8 @@ def host_language(pat, host):
 
 def host_regex(pat):
     kind, lit = pat
+    if kind == "rx":  # a pattern given as such (RX_FAMILIES)
+        return lit
     if kind == "alt":  # top-level alternation of escaped literals
         return "|".join(re.escape(x) for x in lit.split("|"))
     e = re.escape(lit)
@@ -398,16 +414,31 @@ def oracle_hosts(case) -> Result:
     seq = case["seq"] if "seq" in case else [case["host"]]
     extra = [list(h) for h in case.get("extra") or []]
     ws = case.get("scope_type") == "websocket"
+    rx = any(p[0] == "rx" for p in table)
+    grouped, picked = 0, []
+    if rx:
+        # generator precondition: every pattern is valid on its own
+        for p in table:
+            try:
+                grouped += re.compile(host_regex(p)).groups >= 1
+            except re.error as exc:
+                raise core.HarnessError(f"generated host pattern {host_regex(p)!r} is not a valid pattern: {exc!r}")
+    for host in seq:
+        # the first entry whose language contains the whole Host value (an absent Host header is the empty value)
+        picked.append(next((i for i, pat in enumerate(table) if host_language(pat, host if host is not None else "")), None))
     for side in (("asgi",) if ws else ("wsgi", "asgi")):
         seen = []
-        hosts = _hosts_app(table, side, seen)
+        try:
+            hosts = _hosts_app(table, side, seen)
+        except Exception as exc:  # noqa: BLE001
+            if not rx:
+                raise
+            r.fail(f"C09:{side}:hosts-table-rejected:{type(exc).__name__}", f"patterns {[host_regex(p) for p in table]!r}: every pattern is valid on its own, "
+                   f"but building the Hosts object raised {exc!r}")
+            continue
         for n, host in enumerate(seq):
             del seen[:]
-            exp = None
-            for i, pat in enumerate(table):
-                if host_language(pat, host if host is not None else ""):
-                    exp = i
-                    break
+            exp = picked[n]
             ctx = f"patterns {[host_regex(p) for p in table]!r} Host {host!r} server {case.get('server', 'testserver')!r}"
             if extra:
                 ctx += f" other headers {extra!r} (Host at position {case.get('host_pos', 0)})"
@@ -437,8 +468,18 @@ def oracle_hosts(case) -> Result:
             elif seen != [exp]:
                 r.fail(f"C09:{side}:host-wrong-entry", f"{ctx}: entries ran {seen!r} (status {run.status_code}), expected entry #{exp}")
                 break
-    r.nontrivial = bool(case.get("near_miss")) or len(set(seq)) >= 2
     r.weight = len(seq)
+    if rx:
+        # non-trivial: at least two entries have groups of their own (numbered / named / referred back to) and the
+        # Host value belongs to an entry other than the first
+        r.nontrivial = grouped >= 2 and any(e is not None and e >= 1 for e in picked)
+        first = picked[0] if picked else None
+        r.label("no-match" if first is None else "match-first" if first == 0 else "match-later", f"entries-with-groups={min(grouped, 3)}",
+                f"requests={len(seq)}", "non-trivial" if r.nontrivial else "trivial")
+        for fam in case.get("families") or []:
+            r.label(f"family={fam}")
+        return r
+    r.nontrivial = bool(case.get("near_miss")) or len(set(seq)) >= 2
     if "seq" in case:
         r.label(f"requests={len(seq)}")
     else:
@@ -450,7 +491,8 @@ def oracle_hosts(case) -> Result:
 
 
 SUBS = {"mounts": oracle_mounts, "mount_grid": oracle_mounts, "mount_special": oracle_mounts, "mount_bytes": oracle_mounts, "mount_ws": oracle_mounts,
-        "mount_seq": oracle_mount_seq, "mount_seqs": oracle_mount_seq, "hosts": oracle_hosts, "hosts_fixed": oracle_hosts, "hosts_seq": oracle_hosts}
+        "mount_seq": oracle_mount_seq, "mount_seqs": oracle_mount_seq, "hosts": oracle_hosts, "hosts_fixed": oracle_hosts, "hosts_seq": oracle_hosts,
+        "hosts_rx": oracle_hosts, "hosts_rx_grid": oracle_hosts}
 
 # ------------------------------------------------------------------------------------------
 
@@ -680,7 +722,7 @@ def ws_cases():
 
 def enum_shard(rec, k, nshards, sub, full):
     gen = {"mount_grid": grid_cases, "mount_special": lambda: special_cases(full), "mount_bytes": bytes_cases, "mount_seq": lambda: seq_cases(full),
-           "mount_ws": ws_cases, "hosts_seq": hosts_seq_cases}[sub]
+           "mount_ws": ws_cases, "hosts_seq": hosts_seq_cases, "hosts_rx_grid": lambda: hosts_rx_grid_cases(full)}[sub]
     g = core.guarded(SUBS[sub])
     for i, case in enumerate(gen()):
         if i % nshards != k:
@@ -853,6 +895,155 @@ def hosts_seq_cases():
                 yield {"table": table, "seq": list(combo), "near_miss": True}
 
 
+# Patterns whose meaning depends on being compiled on their own: group numbers and names, references back to them, conditions on
+# them, flags that hold for the whole pattern, look-around, quantifiers that do not give back.  name -> domain -> (pattern, Host values
+# meant to be in its language, Host values meant to be just outside).  The intent only steers the generator: the oracle asks
+# re.fullmatch about each entry's own pattern (rx_selfcheck verifies the intent once, so that matches and near-misses are both frequent).
+RX_DOMAINS = ["example.com", "api.example.com", "a-b.org"]
+
+
+@functools.lru_cache(maxsize=None)
+def _rx_families(d):
+    e = re.escape(d)
+    D = d.upper()
+    verbose = r" \. ".join(re.escape(x) for x in d.split("."))
+    return {
+        # numbered back-references
+        "backref": (rf"(eu|us)\.api\.\1\.{e}", [f"eu.api.eu.{d}", f"us.api.us.{d}"], [f"eu.api.us.{d}", f"eu.api..{d}", f"eu.api.eu.{d}x", f"api.eu.{d}", f"eu.api.\\1.{d}"]),
+        "backref-rep": (rf"([a-z0-9]+)-\1\.{e}", [f"ab-ab.{d}", f"7-7.{d}"], [f"ab-ba.{d}", f"ab-abab.{d}", f"ab-.{d}", f"AB-AB.{d}"]),
+        "backref-two": (rf"(a|b)(\d)\.\2\1\.{e}", [f"a1.1a.{d}", f"b0.0b.{d}"], [f"a1.a1.{d}", f"a1.1b.{d}", f"a1.2a.{d}", f"a1.1a.{d}."]),
+        "backref-lazy": (rf"(.+?)\.\1\.{e}", [f"x.x.{d}", f"a.b.a.b.{d}"], [f"x.y.{d}", f"x.x.x.{d}", f"x.{d}"]),
+        "backref-alt": (rf"(a)\1\.{e}|(b)\2\.{e}", [f"aa.{d}", f"bb.{d}"], [f"ab.{d}", f"a.{d}", f"aabb.{d}"]),
+        "backref-opt": (rf"(?:(\d+)\.)?{e}(?::\1)?", [d, f"80.{d}:80", f"80.{d}"], [f"80.{d}:81", f"{d}:80", f".{d}"]),
+        # named groups; the same names are used by several families, so tables repeat them
+        "named": (rf"(?P<sub>[a-z0-9-]+)\.{e}", [f"a.{d}", f"a-1.{d}"], [f"A.{d}", f".{d}", f"a.b.{d}", f"a_b.{d}"]),
+        "named-port": (rf"(?P<host>{e})(?P<port>:\d+)?", [d, f"{d}:80"], [f"{d}:", f"{d}:80x", f"x{d}"]),
+        "named-backref": (rf"(?P<sub>[a-z]+)\.(?P=sub)\.{e}", [f"ab.ab.{d}", f"x.x.{d}"], [f"ab.ba.{d}", f"ab.{d}", f"ab.abab.{d}"]),
+        "named-numbered": (rf"(?P<sub>[a-z]+)-(\d)\.\2\.\1\.{e}", [f"ab-1.1.ab.{d}"], [f"ab-1.ab.1.{d}", f"ab-1.1.ba.{d}", f"ab-1.2.ab.{d}"]),
+        "named-two": (rf"(?P<sub>[a-z]+)\.(?P<port>[a-z]+)\.(?P=sub)\.{e}", [f"a.b.a.{d}"], [f"a.b.b.{d}", f"a.b.{d}"]),
+        # conditional groups
+        "cond": (rf"(www\.)?{e}(?(1)|:\d+)", [f"www.{d}", f"{d}:80"], [d, f"www.{d}:80", f"www.{d}:"]),
+        "cond-named": (rf"(?P<sub>www\.)?{e}(?(sub):\d+|)", [f"www.{d}:8080", d], [f"www.{d}", f"{d}:80"]),
+        "cond-bracket": (rf"(\[)?{e}(?(1)\])(:\d+)?", [d, f"[{d}]", f"[{d}]:80", f"{d}:80"], [f"[{d}", f"{d}]", f"[{d}:80]"]),
+        "cond-second": (rf"(a)?(b)?\.{e}(?(2):\d+)", [f"ab.{d}:1", f"a.{d}", f".{d}", f"b.{d}:22"], [f"ab.{d}", f"b.{d}", f"a.{d}:1"]),
+        # flags for the whole pattern
+        "flag-i": (rf"(?i){e}", [D, d.title(), d], [D + "x", "x" + D, D + "."]),
+        "flag-i-group": (rf"(?i)(www\.)?{e}(:\d+)?", [f"WWW.{D}", f"{D}:80", d], [f"WWW.{D}:", f"WW.{D}"]),
+        "flag-x": (rf"(?x) {verbose}  # {d}", [d], [d.replace(".", " . "), d + " ", f"{d}  # {d}", " " + d]),
+        "flag-x-group": (rf"(?x) ( www \. )? {verbose} ( : \d+ )?", [d, f"www.{d}", f"www.{d}:80"], [f"www . {d}", f"www.{d} :80"]),
+        "flag-s": (rf"(?s).+\.{e}", [f"a.{d}", f"a.b.{d}"], [d, "." + d, f"a.{d}."]),
+        "flag-a": (rf"(?a)\w+\.{e}", [f"a.{d}", f"a_1.{d}"], [f"\xe9.{d}", f"a\xb5.{d}", f"a-b.{d}"]),
+        "flag-ix": (rf"(?ix) (?P<sub>[a-z]+) \. {verbose}", [f"A.{D}", f"cdn.{d}"], [f"A1.{D}", f"A .{D}"]),
+        "flag-scoped": (rf"(?i:www\.)?{e}", [f"WWW.{d}", f"www.{d}", d], [f"WWW.{D}", D]),
+        "flag-scoped-off": (rf"(?i)[a-z]+\.(?-i:{e})", [f"CDN.{d}", f"cdn.{d}"], [f"CDN.{D}", f"cdn.{D}"]),
+        # nested groups
+        "nested": (rf"((?:[a-z0-9]+-)*([a-z0-9]+))\.\2\.{e}", [f"a-b.b.{d}", f"x.x.{d}"], [f"a-b.a.{d}", f"a-b.a-b.{d}"]),
+        "nested-rep": (rf"(([a-z])\2)+\.{e}", [f"aa.{d}", f"aabb.{d}"], [f"ab.{d}", f"aab.{d}", f".{d}"]),
+        "nested-outer": (rf"((a)|(b))\1\.{e}", [f"aa.{d}", f"bb.{d}"], [f"ab.{d}", f"a.{d}"]),
+        # look-ahead and look-behind
+        "ahead-not": (rf"(?!www\.)[a-z0-9.-]+\.{e}", [f"a.{d}", f"ww.{d}", f"wwww.{d}"], [f"www.{d}", f"www.a.{d}"]),
+        "ahead-len": (rf"(?=.{{1,{len(d) + 4}}}$).*\.{e}", [f"a.{d}", f"abc.{d}"], [f"abcdef.{d}", d]),
+        "ahead-group": (rf"(?=([a-z]+))\1\.{e}", [f"abc.{d}"], [f"abc1.{d}", f".{d}"]),
+        "behind-not": (rf"[a-z0-9-]+(?<!-)\.{e}", [f"a.{d}", f"a-b.{d}"], [f"a-.{d}", f"-.{d}"]),
+        "behind": (rf".*(?<=\.){e}", [f"a.{d}", f".{d}"], [d, f"x{d}"]),
+        # quantifiers that do not give back, lazy quantifiers
+        "possessive": (rf"[a-z]++\.{e}", [f"abc.{d}"], [f"abc1.{d}", f".{d}"]),
+        "possessive-never": (rf"[a-z]*+z\.{e}", [], [f"az.{d}", f"z.{d}"]),
+        "atomic": (rf"(?>www|w)w?\.{e}", [f"www.{d}", f"ww.{d}", f"wwww.{d}", f"w.{d}"], [f"wwwww.{d}", f".{d}"]),
+        "atomic-group": (rf"(?>(a|ab))(c)\.{e}", [f"ac.{d}"], [f"abc.{d}", f"a.{d}"]),
+        "lazy-group": (rf"(.*?)(\.?){e}", [d, f"a.{d}", f"x{d}"], [f"{d}x", f"a.{d}."]),
+        # patterns without any of this, for tables that mix both kinds
+        "plain": (e, [d], [d + "x", "x" + d, D]),
+        "plain-sub": (rf".*\.{e}", [f"a.{d}", f"eu.api.eu.{d}"], [d, f"a.{d}x"]),
+        "plain-any": (r".*", [d, "evil.com", ""], []),
+    }
+
+
+RX_NAMES = list(_rx_families("x.y"))
+RX_OTHER = ["", "evil.com", "example.org", "EXAMPLE.COM", "[::1]", "\xe9", "*", "a.example.com.evil.com"]
+
+
+def rx_selfcheck():
+    """The catalogue says what it means to say: every pattern is valid on its own, accepts its members and rejects its near-misses."""
+    for d in RX_DOMAINS:
+        for name, (pattern, members, nears) in _rx_families(d).items():
+            try:
+                c = re.compile(pattern)
+            except re.error as exc:
+                raise core.HarnessError(f"catalogue pattern {name} {pattern!r}: {exc!r}")
+            bad = [m for m in members if c.fullmatch(m) is None] + [x for x in nears if c.fullmatch(x) is not None]
+            if bad:
+                raise core.HarnessError(f"catalogue pattern {name} {pattern!r}: members / near-misses are not what they are meant to be: {bad!r}")
+
+
+def _rx_hosts(picks, wide=False):
+    out = []
+    for name, d in picks:
+        _, members, nears = _rx_families(d)[name]
+        out += members + (nears if wide else nears[:2])
+    return list(dict.fromkeys(out))
+
+
+def hosts_rx_grid_cases(full=False):
+    """every ordered pair of catalogue patterns over one domain (thorough: also over two domains, and with a third entry) x the members
+    and near-misses of both; every single pattern x all its members and near-misses"""
+    for d in RX_DOMAINS if full else RX_DOMAINS[:1]:
+        for a in RX_NAMES:
+            pa = _rx_families(d)[a][0]
+            for host in _rx_hosts([(a, d)], wide=True) + RX_OTHER + [None]:
+                yield {"table": [["rx", pa]], "host": host, "families": [a]}
+            for b in RX_NAMES:
+                for d2 in RX_DOMAINS if full else (d,):
+                    pb = _rx_families(d2)[b][0]
+                    for host in _rx_hosts([(a, d), (b, d2)]):
+                        yield {"table": [["rx", pa], ["rx", pb]], "host": host, "families": [a, b]}
+    # a plain first entry, then two entries with groups (the member of the last one is what is asked for), optionally a catch-all
+    d, d2 = RX_DOMAINS[0], RX_DOMAINS[1]
+    for a in RX_NAMES:
+        for b in RX_NAMES if full else RX_NAMES[::3]:
+            table = [["lit", "static." + d], ["rx", _rx_families(d2)[a][0]], ["rx", _rx_families(d)[b][0]]]
+            for tail in ([], [["rx", ".*"]]):
+                for host in _rx_hosts([(b, d)]) + _rx_hosts([(a, d2)])[:1]:
+                    yield {"table": table + tail, "host": host, "families": [a, b]}
+
+
+@st.composite
+def host_rx_case(draw):
+    """1..4 entries: catalogue patterns over few domains (so languages overlap and names repeat), sometimes an entry of the constructive
+    family; Host = a member / near-miss of one of the entries, of a catalogue pattern that is not in the table, or an unrelated value;
+    sometimes 1..2 further requests to the same Hosts object"""
+    n = draw(st.integers(1, 4))
+    picks, table = [], []
+    for _ in range(n):
+        if draw(st.integers(0, 7)) == 0:
+            kind = draw(st.sampled_from(["lit", "www", "sub", "port", "cls", "ci"]))
+            table.append([kind, draw(st.sampled_from(RX_DOMAINS))])
+        else:
+            pick = (draw(st.sampled_from(RX_NAMES)), draw(st.sampled_from(RX_DOMAINS)))
+            picks.append(pick)
+            table.append(["rx", _rx_families(pick[1])[pick[0]][0]])
+    if not picks:
+        pick = (draw(st.sampled_from(RX_NAMES)), draw(st.sampled_from(RX_DOMAINS)))
+        picks.append(pick)
+        table.append(["rx", _rx_families(pick[1])[pick[0]][0]])
+    # the entry asked for: later entries more often than the first; its members more often than its near-misses
+    target = draw(st.sampled_from(picks + picks[1:] + picks[-1:]))
+    _, members, nears = _rx_families(target[1])[target[0]]
+    foreign = st.tuples(st.sampled_from(RX_NAMES), st.sampled_from(RX_DOMAINS)).map(lambda p: _rx_hosts([p], wide=True) or [p[1]]).flatmap(st.sampled_from)
+    anywhere = st.sampled_from(_rx_hosts(picks, wide=True) or RX_OTHER)
+    by_mode = [st.sampled_from(members) if members else anywhere] * 5 + [st.sampled_from(nears) if nears else anywhere] * 2 + [
+        anywhere, foreign, st.sampled_from(RX_OTHER + [None])]
+    value = st.integers(0, 9).flatmap(lambda m: by_mode[m])
+    case = {"table": table, "families": [p[0] for p in picks]}
+    if draw(st.integers(0, 3)) == 0:
+        case["seq"] = draw(st.lists(value, min_size=2, max_size=3))
+    else:
+        case["host"] = draw(value)
+    if draw(st.integers(0, 9)) == 0:
+        case["scope_type"] = "websocket"
+    return case
+
+
 def run(rec, only=None):
     quick = rec.tier == "quick"
     procs = min(8, core.ncpu())
@@ -873,6 +1064,14 @@ def run(rec, only=None):
         core.run_sharded(rec, enum_shard, 8, procs, ("hosts_seq", not quick))
         rec.exhaustive["hosts_seq"] = True
     core.drive_hypothesis(rec, "hosts", host_case(), oracle_hosts, 1500 if quick else 30000, seed_offset=1)
+    if want("hosts_rx") or want("hosts_rx_grid"):
+        rx_selfcheck()
+    if want("hosts_rx_grid"):
+        core.run_sharded(rec, enum_shard, 8, procs, ("hosts_rx_grid", not quick))
+        rec.exhaustive["hosts_rx_grid"] = True
+    core.drive_hypothesis(rec, "hosts_rx", host_rx_case(), oracle_hosts, 1000 if quick else 20000, seed_offset=3)
+    if want("hosts_rx"):
+        rec.exhaustive["hosts_rx"] = False
     if want("hosts_fixed"):
         rec.exhaustive["hosts_fixed"] = True
     if want("mounts"):
